@@ -16,8 +16,6 @@ package ast
 //@ method (e EmptyNode) Pos() (r parsley.Pos) = parsley.Pos(e)
 //@ method (e EmptyNode) ReaderPos() (r parsley.Pos) = parsley.Pos(e)
 //@ specmethod (e EmptyNode) NodeOK() (r bool) = true
-//@ specmethod (e EmptyNode) ListSpare() (r int) = 0
-//@ specmethod (e EmptyNode) ListArr() (r int) = 0
 
 //@ method (t *TerminalNode) Token() (r string) = t.token
 //@ method (t *TerminalNode) Schema() (r interface{}) = t.schema
@@ -25,8 +23,6 @@ package ast
 //@ method (t *TerminalNode) Pos() (r parsley.Pos) = t.pos
 //@ method (t *TerminalNode) ReaderPos() (r parsley.Pos) = t.readerPos
 //@ specmethod (t *TerminalNode) NodeOK() (r bool) = t != nil
-//@ specmethod (t *TerminalNode) ListSpare() (r int) = 0
-//@ specmethod (t *TerminalNode) ListArr() (r int) = 0
 
 //@ func NewTerminalNode(schema interface{}, token string, value interface{}, pos parsley.Pos, readerPos parsley.Pos) (t *TerminalNode)
 //@   ensures fresh(t) && t.schema == schema && t.token == token && t.value == value && t.pos == pos && t.readerPos == readerPos
@@ -39,8 +35,6 @@ package ast
 //@ method (n *NonTerminalNode) ReaderPos() (r parsley.Pos) = n.readerPos
 //@ method (n *NonTerminalNode) Children() (r []parsley.Node) = n.children
 //@ specmethod (n *NonTerminalNode) NodeOK() (r bool) = n != nil
-//@ specmethod (n *NonTerminalNode) ListSpare() (r int) = 0
-//@ specmethod (n *NonTerminalNode) ListArr() (r int) = 0
 
 //@ -- ---------------------------------------------------------------- node lists
 //@ -- a list of alternatives is non-empty, flat, holds well-formed nodes and starts at the beginning of its array
@@ -80,14 +74,19 @@ package ast
 //@ -- Nothing is assumed about aliasing between the list and the node being appended.
 //@ func (nl *NodeList) Append(node parsley.Node)
 //@   requires nl != nil && wfList(*nl) && node != nil && parsley.NodeOK(node)
+//@   requires [perm;C07] cap(*nl) > len(*nl) ==> parsley.GhostSpare(array(*nl))
+//@   ensures  [perm;C07] cap(*nl) > len(*nl) ==> parsley.GhostSpare(array(*nl))
+//@   ensures  [perm-frame;C07] forall a int :: !freshid(a) ==> parsley.GhostSpare(a) == old(parsley.GhostSpare(a))
+//@   ghost_return when fresh(*nl) :: parsley.GhostSpare(array(*nl)) = true
 //@   ensures  [wf] wfList(*nl) && len(*nl) >= old(len(*nl))
 //@   ensures  [prefix;C07] forall k int :: 0 <= k && k < old(len(*nl)) ==> same((*nl)[k], old((*nl)[k]))
 //@   ensures  [arr;C07] (array(*nl) == old(array(*nl)) && offset(*nl) == old(offset(*nl)) && cap(*nl) == old(cap(*nl))) || fresh(*nl)
 //@   ensures  [tail;C07] forall j int :: old(len(*nl)) <= j && j < old(cap(*nl)) ==> same(old(*nl)[0:old(cap(*nl))][j], old((*nl)[0:cap(*nl)][j])) || validElem(old(*nl)[0:old(cap(*nl))][j])
 //@   ensures  [tail-within] old(within(*nl)) && old(within(node)) ==> forall j int :: old(len(*nl)) <= j && j < old(cap(*nl)) ==> same(old(*nl)[0:old(cap(*nl))][j], old((*nl)[0:cap(*nl)][j])) || within(old(*nl)[0:old(cap(*nl))][j])
 //@   ensures  [within] old(within(*nl)) && old(within(node)) ==> within(*nl)
-//@   assigns  *nl, cells(*nl, len(*nl), cap(*nl))
+//@   assigns  *nl, cells(*nl, len(*nl), cap(*nl)), parsley.GhostSpare
 //@ loop 1 (k rangeindex, v NodeList)
+//@   invariant [perm] (cap(*nl) > len(*nl) ==> parsley.GhostSpare(array(*nl))) && forall a int :: !freshid(a) ==> parsley.GhostSpare(a) == old(parsley.GhostSpare(a))
 //@   invariant 0 <= k && k <= len(v)
 //@   invariant wfList(*nl) && len(*nl) >= old(len(*nl))
 //@   invariant forall j int :: 0 <= j && j < old(len(*nl)) ==> same((*nl)[j], old((*nl)[j]))
@@ -101,10 +100,13 @@ package ast
 
 //@ func AppendNode(n1 parsley.Node, n2 parsley.Node) (r parsley.Node)
 //@   requires (n1 != nil ==> parsley.NodeOK(n1)) && (n2 != nil ==> parsley.NodeOK(n2))
+//@   requires [perm;C07] n1 != nil && n2 != nil && parsley.ListSpare(n1) > 0 ==> parsley.GhostSpare(parsley.ListArr(n1))
+//@   ensures  [perm;C07] n1 != nil && n2 != nil && parsley.ListSpare(r) > 0 ==> parsley.GhostSpare(parsley.ListArr(r))
+//@   ensures  [perm-frame;C07] forall a int :: !freshid(a) ==> parsley.GhostSpare(a) == old(parsley.GhostSpare(a))
 //@   ensures  [nil1] n1 == nil ==> same(r, n2)
 //@   ensures  [nil2] n1 != nil && n2 == nil ==> same(r, n1)
 //@   ensures  [list] n1 != nil && n2 != nil ==> typeis[NodeList](r) && parsley.NodeOK(r)
 //@   ensures  [arr;C07] n1 != nil && n2 != nil ==> freshid(parsley.ListArr(r)) || (typeis[NodeList](n1) && parsley.ListArr(r) == parsley.ListArr(n1) && cap(r.(NodeList)) == cap(n1.(NodeList)))
 //@   ensures  [prefix;C07] n1 != nil && n2 != nil && typeis[NodeList](n1) ==> len(r.(NodeList)) >= len(n1.(NodeList)) && forall k int :: 0 <= k && k < len(n1.(NodeList)) ==> same(r.(NodeList)[k], n1.(NodeList)[k])
 //@   ensures  [within] old((n1 != nil ==> within(n1)) && (n2 != nil ==> within(n2))) && r != nil ==> within(r)
-//@   assigns  ite(n1 != nil && n2 != nil && typeis[NodeList](n1), cells(n1.(NodeList), len(n1.(NodeList)), cap(n1.(NodeList))), nothing())
+//@   assigns  ite(n1 != nil && n2 != nil && typeis[NodeList](n1), cells(n1.(NodeList), len(n1.(NodeList)), cap(n1.(NodeList))), nothing()), parsley.GhostSpare
